@@ -11,7 +11,7 @@ import time
 import z3
 
 from . import mir as M
-from .values import (I, Agg, VecObj, Cell, Ref, FnItem, Opaque, UNIT, UNINIT, Unit, V, INT_W, SIGNED, FLOATS,
+from .values import (I, Agg, VecObj, Cell, Ref, FnItem, Opaque, UNIT, UNINIT, Unit, V, INT_W, SIGNED, FLOATS, Havoc,
                      binop, unop, cast_int, cast_int_to_float, cast_float_to_int, clone_shallow, deep_clone,
                      ordering, is_int_ty, float_bits, band, bnot)
 from .srcinfo import parse_impl_header, norm_type, unify
@@ -32,6 +32,17 @@ class ForkValues(Exception):
     def __init__(self, term, choices):
         self.term = term
         self.choices = choices
+
+
+class Infeasible(Exception):
+    """path left the set of valid states (only in slices: a havoc'd discriminant reached MIR `unreachable`)"""
+
+
+class StopSlice(Exception):
+    """raised by a stub to end an arithmetic slice at a named call (the path is reported as outcome 'stop')"""
+
+    def __init__(self, info=None):
+        self.info = info
 
 
 class PanicExc(Exception):
@@ -124,6 +135,10 @@ def navigate(v, path):
                 if step[1] >= len(v.fields):
                     raise Unsupported(f"field {step[1]} of {v!r}")
                 v = v.fields[step[1]]
+            elif isinstance(v, Havoc):
+                if len(step) < 3:
+                    raise Unsupported("untyped field access into a havoc'd object")
+                v = v.field(step[1], step[2])
             else:
                 raise Unsupported(f"field access into {v!r}")
         elif k == "i":
@@ -150,7 +165,10 @@ class Executor:
         self.solver_s = 0.0
         self.blocks_executed = 0
         self.sym_counter = 0
+        self.prune_unreachable = False     # slices over havoc'd state set this: `unreachable` = invalid state, not a panic
+        self.pruned = 0
         self._impl_index = None
+        self._closure_index = None
         self._const_cache = {}
         self._suffix_index = None
         from . import models
@@ -422,7 +440,7 @@ class Executor:
             elif k == "field":
                 if loc.window is not None:
                     raise Unsupported("field of slice")
-                loc = Loc(loc.cell, loc.path + (("f", p[1]),))
+                loc = Loc(loc.cell, loc.path + (("f", p[1], self.subst(frame, p[2])),))
             elif k == "downcast":
                 v = self.read_loc(loc)
                 if isinstance(v, Agg) and v.kind == "enum" and v.variant != p[1] and not p[1].isdigit():
@@ -480,7 +498,9 @@ class Executor:
         parent = navigate(loc.cell.v, path[:-1])
         last = path[-1]
         if last[0] == "f":
-            if isinstance(parent, Agg):
+            if isinstance(parent, Havoc):
+                parent.fields[last[1]] = val
+            elif isinstance(parent, Agg):
                 while len(parent.fields) <= last[1]:
                     parent.fields.append(UNINIT)
                 parent.fields[last[1]] = val
@@ -622,7 +642,8 @@ class Executor:
         if k == "shallow_init_box":
             return self.operand(st, frame, rv.args[0])
         if k == "closure":
-            return Agg("struct", [], name=rv.extra)
+            span, names = rv.extra
+            return Agg("struct", [self.operand(st, frame, o) for o in rv.args], name=span)
         raise Unsupported("rvalue kind " + k)
 
     BUILTIN_ENUMS = {"Option": [("None", 0), ("Some", 1)], "Result": [("Ok", 0), ("Err", 1)],
@@ -630,6 +651,8 @@ class Executor:
                      "ControlFlow": [("Continue", 0), ("Break", 1)], "Cow": [("Borrowed", 0), ("Owned", 1)]}
 
     def discriminant_of(self, v):
+        if isinstance(v, Havoc):
+            return v.field("discriminant", "isize")
         if isinstance(v, Agg) and v.kind == "enum":
             vs = self.BUILTIN_ENUMS.get(v.name) or self.src.enum_variants(v.name, v.variant)
             if vs is None:
@@ -655,6 +678,30 @@ class Executor:
         st.pc = list(pc or [])
         st.env = env or {}
         return st
+
+    def start_at(self, fn, block, locals_init, tymap=None, pc=None, env=None):
+        """arithmetic slice: begin in the middle of `fn` at `block` with the given locals (others uninitialised)"""
+        fn.parse()
+        st = State()
+        fr = Frame(fn, dict(tymap or {}))
+        holder = Havoc("locals", "local")
+        for name, ty in fn.decls.items():
+            # state produced by the skipped prefix of the function is under-constrained
+            fr.locals[name] = Cell(holder.field(name, self.subst(fr, ty)))
+        fr.locals.setdefault("_0", Cell(UNINIT))
+        for name, v in locals_init.items():
+            fr.locals[name] = Cell(v)
+        fr.block = block
+        st.frames.append(fr)
+        st.pc = list(pc or [])
+        st.env = env or {}
+        return st
+
+    def find_call_block(self, fn, callee_rx):
+        """blocks of fn whose terminator calls a function matching callee_rx -> [(block name, Term)]"""
+        fn.parse()
+        rx = re.compile(callee_rx)
+        return [(b.name, b.term) for b in fn.blocks.values() if b.term is not None and b.term.kind == "call" and rx.search(b.term.a["func"])]
 
     def enter(self, st, fn, args, tymap=None):
         """push an entry frame for `fn` on an existing (returned) state: used to run call sequences"""
@@ -712,7 +759,13 @@ class Executor:
                     continue
                 except PanicExc as p:
                     fr = st.frames[-1]
-                    outcomes.append(Outcome("panic", None, st, f"{p.msg} @ {fr.name}:{fr.block}"))
+                    outcomes.append(Outcome("panic", None, st, f"{p.msg} @ {_short_fn(fr.name)}:{fr.block}"))
+                    break
+                except Infeasible:
+                    self.pruned += 1
+                    break
+                except StopSlice as sp:
+                    outcomes.append(Outcome("stop", sp.info, st, "slice end"))
                     break
                 if res is not None:
                     outcomes.append(res)
@@ -800,6 +853,8 @@ class Executor:
             self.jump(caller, fr.target)
             return None
         if k == "unreachable":
+            if self.prune_unreachable:
+                raise Infeasible()
             raise PanicExc("entered unreachable code (MIR `unreachable`)")
         if k == "call":
             return self.call(st, fr, t)
@@ -810,6 +865,77 @@ class Executor:
     def jump(self, fr, target):
         fr.block = target
         fr.idx = 0
+
+    # ------------------------------------------------------------------ closures / synchronous sub-calls
+    def closure_fn(self, closure):
+        """MIR body of a closure value (matched by its source span)"""
+        if self._closure_index is None:
+            idx = {}
+            for key, d in self.dumps.items():
+                for name, fs in d.functions.items():
+                    if "{closure#" in name:
+                        for f in fs:
+                            m = re.search(r"\(_1: (?:&(?:mut )?)?(?:'[a-z_0-9]+ )?(\{closure@[^}]*\})", f.header)
+                            if m:
+                                idx.setdefault(m.group(1), []).append(f)
+            self._closure_index = idx
+        fs = self._closure_index.get(closure.name, [])
+        if len(fs) != 1:
+            raise Unsupported(f"closure body for {closure.name}: {len(fs)} candidates")
+        return fs[0].parse()
+
+    def call_closure(self, st, fr, closure, args):
+        """call closure(args...) -> value (args is a python list of the *unpacked* call arguments)"""
+        if isinstance(closure, Ref):
+            cval = navigate(closure.cell.v, closure.path)
+            cref = closure
+        else:
+            cval = closure
+            cref = None
+        if isinstance(cval, FnItem):
+            raise Unsupported("function item used as closure: " + cval.path)
+        fn = self.closure_fn(cval)
+        first_ty = fn.args[0][1]
+        if first_ty.startswith("&"):
+            self_arg = cref if cref is not None else Ref(Cell(cval))
+        else:
+            self_arg = cval
+        # closure bodies take their arguments unpacked
+        return self.call_sync(st, fn, [self_arg] + list(args), dict(fr.tymap))
+
+    def call_sync(self, st, fn, args, tymap):
+        """run fn to completion on this state and return its value.  A fork inside propagates as an exception after the
+        state has been restored, so that the calling model is re-executed from scratch on each branch."""
+        backup = st.clone()
+        depth = len(st.frames)
+        try:
+            self.enter_frame(st, fn, args, tymap)
+            while True:
+                res = self.step(st, depth + 1)
+                if res is not None:
+                    if res.kind == "return":
+                        return res.value
+                    raise Unsupported("sub-call ended with " + res.kind)
+        except BaseException:
+            st.frames = backup.frames
+            st.env = backup.env
+            st.pc = backup.pc
+            st.decided = backup.decided
+            st.trace = backup.trace
+            raise
+
+    def enter_frame(self, st, fn, args, tymap):
+        fn.parse()
+        nf = Frame(fn, dict(tymap or {}))
+        for name in fn.decls:
+            nf.locals[name] = Cell(UNINIT)
+        nf.locals.setdefault("_0", Cell(UNINIT))
+        if len(args) != len(fn.args):
+            raise Unsupported(f"arity mismatch calling {fn.name}: {len(fn.args)} vs {len(args)}")
+        for (name, _), v in zip(fn.args, args):
+            nf.locals[name] = Cell(v)
+        st.frames.append(nf)
+        return nf
 
     # ------------------------------------------------------------------ calls
     def call(self, st, fr, t):
@@ -943,6 +1069,11 @@ class Executor:
                     raise Unsupported(f"cannot bind generic arguments of {func_s}")
             return fn, tymap
         return None
+
+
+def _short_fn(name):
+    """function name without the line/column span of its impl (stable under unrelated edits)"""
+    return re.sub(r"<impl at [^>]*>", "<impl>", name)
 
 
 def _strip_last_generics(p):
